@@ -207,6 +207,17 @@ def is_dispatch(e, leaf):
 
 def run(ctx):
     """entry"""
+    arg = None
+    bad = None
+    call = None
+    e = None
+    f = None
+    key = None
+    msg = None
+    ok = None
+    p = None
+    q = None
+    roots = None
     index = ctx.index
     graph = RefGraph(index)
     eff = Effects(index)
@@ -235,267 +246,287 @@ def run(ctx):
     ctx.count("write_sinks", len([e for e in eff.sites if e.kind == "FSWRITE"]))
     ctx.floor("EXEC sinks in non-test code", len(exec_sites), 20)
     charset_ok = _charset(ctx)
-    # ------------------------------------------------------------- C17.exec
-    facts_cache = {}
+    def _sec_c17_exec():
+        nonlocal arg, e, key, msg, ok, p, roots
+        # ------------------------------------------------------------- C17.exec
+        facts_cache = {}
 
-    def facts_at(f, node):
-        if f.qual not in facts_cache:
-            fa = {}
+        def facts_at(f, node):
+            if f.qual not in facts_cache:
+                fa = {}
 
-            def on_expr(n, facts, _fa=fa):
-                _fa[id(n)] = facts
+                def on_expr(n, facts, _fa=fa):
+                    _fa[id(n)] = facts
 
-            GuardWalker(on_expr=on_expr).walk_function(f.node)
-            facts_cache[f.qual] = fa
-        return facts_cache[f.qual].get(id(node))
+                GuardWalker(on_expr=on_expr).walk_function(f.node)
+                facts_cache[f.qual] = fa
+            return facts_cache[f.qual].get(id(node))
 
-    justified_sites = set()
-    for e in exec_sites:
-        where = e.where()
-        arg = e.call.args[0] if e.call.args else None
-        fq = e.func.qual if e.func is not None else None
-        just = JUSTIFIED.get((fq, e.callee))
-        ok, msg = False, ""
-        if e.sub == "import" and arg is not None and closed_constant(arg):
-            ok = True
-            kind = "constant"
-        elif just is None:
-            kind = "unlisted"
-            msg = (
-                "new execution/import sink {}({}) outside the justified inventory".format(
-                    e.callee, short(arg, 50)
-                )
-            )
-        elif just == "charset":
-            kind = just
-            # the argument must be the (only) result of parse_adhoc_doc_for_typ
-            roots_ok = False
-            if isinstance(arg, ast.Name):
-                from ..defuse import local_defs
-
-                defs = local_defs(e.func).get(arg.id, [])
-                roots_ok = bool(defs) and all(
-                    isinstance(d, ast.Call)
-                    and index.callee(e.func.mod, d, e.func)
-                    == "cdd.docstring.utils.parse_utils.parse_adhoc_doc_for_typ"
-                    for d in defs
-                )
-            ok = roots_ok and charset_ok
-            if not roots_ok:
-                msg = "eval argument is no longer exactly the result of parse_adhoc_doc_for_typ"
-            elif not charset_ok:
-                msg = "the doc-derived eval argument is not character-bounded (see C17.charset)"
-        elif just.startswith("guard:"):
-            kind = just
-            g = just.split(":")[1]
-            facts = facts_at(e.func, e.call) or {}
-            ok = facts.get(g) is True
-            if not ok:
-                msg = "{} is no longer dominated by the explicit opt-in `{}`".format(e.callee, g)
-            if ok and g == "prepend":
-                # the compiled text is built from Import/ImportFrom nodes of the prepend string only
-                roots = param_roots(e.func, e.call)
-                ok = "prepend" in roots and not (roots & {"input_mapping", "output_filename"})
-                if not ok:
-                    msg = "eval in gen depends on {} rather than on --prepend only".format(sorted(roots))
-        elif just.startswith("delegate:"):
-            kind = just
-            p = just.split(":")[1]
-            ok = isinstance(arg, ast.Name) and arg.id == p and p in e.func.params
-            if not ok:
-                msg = "argument of {} is no longer the bare parameter `{}`".format(e.callee, p)
-        elif just.startswith("dispatch:"):
-            kind = just
-            ok = arg is not None and is_dispatch(arg, just.split(":")[1])
-            if not ok:
-                msg = "import_module argument no longer has the shape '.'.join(('cdd', kind, '{}'))".format(
-                    just.split(":")[1]
-                )
-        else:  # pragma: no cover
-            kind = just
-        if ok:
-            justified_sites.add(id(e.call))
-        ctx.ob("C17.exec", where, e.call, ok, msg or kind)
-    # table entries must still exist
-    present = {(e.func.qual if e.func else None, e.callee) for e in exec_sites}
-    for key in JUSTIFIED:
-        ctx.need(key in present, "justified sink vanished (table out of date): {}".format(key))
-    # ------------------------------------------------- who may call delegates
-    n_del = 0
-    seen_pairs = set()
-    for f in index.nontest_funcs():
-        for helper in sorted(DELEGATES):
-            for node in graph.sites.get((f.qual, helper), []):
-                if f.qual == helper:
-                    continue
-                par = f.mod.parents.get(node)
-                n_del += 1
-                key = (f.qual, helper)
-                seen_pairs.add(key)
-                ent = DELEGATE_CALLERS.get(key)
-                if ent is None:
-                    ctx.ob(
-                        "C17.exec",
-                        f,
-                        par if isinstance(par, ast.Call) else node,
-                        False,
-                        "new caller of the importing helper {}: needs review (is the name explicit "
-                        "user input or taken from analysed source?)".format(helper),
-                    )
-                    continue
-                cls, roots, reason = ent
-                call = par if isinstance(par, ast.Call) and par.func is node else None
-                got = param_roots(f, ast.Tuple(elts=list(call.args) + [k.value for k in call.keywords if k.arg not in ("extra_symbols", "none_when_no_spec")], ctx=ast.Load())) if call is not None else set()
-                if call is not None:
-                    # re-run on the original nodes so that lambda scoping is visible
-                    got = set()
-                    for a in list(call.args) + [k.value for k in call.keywords if k.arg not in ("extra_symbols", "none_when_no_spec")]:
-                        got |= param_roots(f, a)
-                shape_ok = call is not None and got <= roots and bool(got)
-                if not shape_ok:
-                    ctx.ob(
-                        "C17.exec",
-                        f,
-                        par if isinstance(par, ast.Call) else node,
-                        False,
-                        "argument of {} now depends on {} (confirmed: {})".format(
-                            helper, sorted(got), sorted(roots)
-                        ),
-                    )
-                    continue
-                if cls == "source":
-                    reach_from = [
-                        c for c in COMMANDS if f.qual in graph.reachable([c])
-                    ]
-                    ctx.ob(
-                        "C17.exec",
-                        f,
-                        call,
-                        False,
-                        "a module name taken from the analysed source reaches {} -> find_spec, which "
-                        "imports the parent package(s) of a dotted name ({}); reachable from {}".format(
-                            helper, reason, reach_from
-                        ),
-                    )
-                else:
-                    ctx.ob("C17.exec", f, call, True, "{}: {}".format(cls, reason))
-    for key in DELEGATE_CALLERS:
-        ctx.need(key in seen_pairs, "who-may-call table entry vanished: {}".format(key))
-    ctx.count("delegate_call_sites", n_del)
-    # ------------------------------------------------------------ C17.reach
-    allowed_for_pure = {
-        ("cdd.shared.docstring_parsers.__set_name_and_type_handle_doc_in_param", "builtins.eval"),
-    }
-    pure_entries = PARSERS + EMITTERS + [
-        "cdd.compound.doctrans.doctrans",
-        "cdd.shared.conformance.ground_truth",
-    ]
-    for q in pure_entries + ["cdd.compound.sync_properties.sync_properties"]:
-        r = graph.reachable([q])
-        bad = []
+        justified_sites = set()
         for e in exec_sites:
-            if e.func is None or e.func.qual not in r:
-                continue
-            key = (e.func.qual, e.callee)
+            where = e.where()
             arg = e.call.args[0] if e.call.args else None
+            fq = e.func.qual if e.func is not None else None
+            just = JUSTIFIED.get((fq, e.callee))
+            ok, msg = False, ""
             if e.sub == "import" and arg is not None and closed_constant(arg):
-                continue
-            if key in allowed_for_pure:
-                continue
-            if q.endswith("sync_properties") and key[0].endswith("sync_property"):
-                continue
-            bad.append(e)
-        ok = not bad
-        f = index.funcs[q]
-        ctx.ob(
-            "C17.reach",
-            f,
-            "EXEC sinks reachable from " + f.short,
-            ok,
-            ""
-            if ok
-            else "entry point reaches {} via {}".format(
-                [(b.func.qual, b.callee) for b in bad][:3],
-                " -> ".join(graph.path(q, bad[0].func.qual) or []),
-            ),
-            line=f.node.lineno,
-        )
-    # ------------------------------------------------------------ C17.write
-    for q in PARSERS + EMITTERS:
-        f = index.funcs[q]
-        ok = q not in wm.may
-        ctx.ob(
-            "C17.write",
-            f,
-            "write sinks reachable from " + f.short,
-            ok,
-            "" if ok else "a parser/emitter may write: {}".format(" -> ".join(wm.path(q))),
-            line=f.node.lineno,
-        )
-    cmd_reach = set()
-    for q in COMMANDS:
-        cmd_reach |= graph.reachable([q])
-    n_w = 0
-    for q in sorted(cmd_reach):
-        f = index.funcs.get(q)
-        if f is None or f.mod.is_test:
-            continue
-        sites = [(e.call, e.callee + ":" + e.sub) for e in wm.direct.get(q, ())]
-        sites += [(n, "wrapper " + w) for n, w, mode in wm.wrapper_write_sites.get(q, ()) if isinstance(n, ast.Call)]
-        # the wrappers themselves (open(filename, mode)) are checked at their call sites
-        for call, what in sites:
-            n_w += 1
-            p = _path_arg(index, wm, f, call, what)
-            if p is None:
-                ctx.need(False, "cannot find the path argument of {}".format(short(call)))
-            roots = param_roots(f, p)
-            allowed = OUTPUT_PARAMS.get(q)
-            if allowed is None:
-                ctx.ob(
-                    "C17.write",
-                    f,
-                    call,
-                    False,
-                    "write sink in a function that is not a designated output writer "
-                    "(path depends on {})".format(sorted(roots)),
-                )
-                continue
-            ok = bool(roots) and roots <= allowed
-            msg = ""
-            if not ok:
-                msg = "written path depends on {} — only {} name the output file".format(
-                    sorted(roots), sorted(allowed)
-                )
-            else:
-                ex = exact_param(index, f, p)
-                if ex is None or ex not in allowed:
-                    ok = False
-                    msg = (
-                        "the file written is `{}`, not exactly the named output ({}): a second file is "
-                        "created/modified".format(short(p, 60), sorted(allowed))
+                ok = True
+                kind = "constant"
+            elif just is None:
+                kind = "unlisted"
+                msg = (
+                    "new execution/import sink {}({}) outside the justified inventory".format(
+                        e.callee, short(arg, 50)
                     )
-            ctx.ob("C17.write", f, call, ok, msg)
-    ctx.count("command_write_sites", n_w)
-    ctx.floor("command write sites", n_w, 8)
-    # input files are opened read-only: every open() whose path depends on an input parameter
-    for q in sorted(cmd_reach):
-        f = index.funcs.get(q)
-        if f is None or f.mod.is_test:
-            continue
-        for e in eff.by_func.get(q, ()):
-            if e.kind == "FSWRITE" and e.callee in OPEN_NAMES and e.call.args:
-                roots = param_roots(f, e.call.args[0])
-                bad = roots & INPUT_PARAMS
-                if bad:
+                )
+            elif just == "charset":
+                kind = just
+                # the argument must be the (only) result of parse_adhoc_doc_for_typ
+                roots_ok = False
+                if isinstance(arg, ast.Name):
+                    from ..defuse import local_defs
+
+                    defs = local_defs(e.func).get(arg.id, [])
+                    roots_ok = bool(defs) and all(
+                        isinstance(d, ast.Call)
+                        and index.callee(e.func.mod, d, e.func)
+                        == "cdd.docstring.utils.parse_utils.parse_adhoc_doc_for_typ"
+                        for d in defs
+                    )
+                ok = roots_ok and charset_ok
+                if not roots_ok:
+                    msg = "eval argument is no longer exactly the result of parse_adhoc_doc_for_typ"
+                elif not charset_ok:
+                    msg = "the doc-derived eval argument is not character-bounded (see C17.charset)"
+            elif just.startswith("guard:"):
+                kind = just
+                g = just.split(":")[1]
+                facts = facts_at(e.func, e.call) or {}
+                ok = facts.get(g) is True
+                if not ok:
+                    msg = "{} is no longer dominated by the explicit opt-in `{}`".format(e.callee, g)
+                if ok and g == "prepend":
+                    # the compiled text is built from Import/ImportFrom nodes of the prepend string only
+                    roots = param_roots(e.func, e.call)
+                    ok = "prepend" in roots and not (roots & {"input_mapping", "output_filename"})
+                    if not ok:
+                        msg = "eval in gen depends on {} rather than on --prepend only".format(sorted(roots))
+            elif just.startswith("delegate:"):
+                kind = just
+                p = just.split(":")[1]
+                ok = isinstance(arg, ast.Name) and arg.id == p and p in e.func.params
+                if not ok:
+                    msg = "argument of {} is no longer the bare parameter `{}`".format(e.callee, p)
+            elif just.startswith("dispatch:"):
+                kind = just
+                ok = arg is not None and is_dispatch(arg, just.split(":")[1])
+                if not ok:
+                    msg = "import_module argument no longer has the shape '.'.join(('cdd', kind, '{}'))".format(
+                        just.split(":")[1]
+                    )
+            else:  # pragma: no cover
+                kind = just
+            if ok:
+                justified_sites.add(id(e.call))
+            ctx.ob("C17.exec", where, e.call, ok, msg or kind)
+        # table entries must still exist
+        present = {(e.func.qual if e.func else None, e.callee) for e in exec_sites}
+        for key in JUSTIFIED:
+            ctx.need(key in present, "justified sink vanished (table out of date): {}".format(key))
+
+    ctx.section(_sec_c17_exec)
+
+    def _sec_who_may_call_delegates():
+        nonlocal call, f, key, roots
+        # ------------------------------------------------- who may call delegates
+        n_del = 0
+        seen_pairs = set()
+        for f in index.nontest_funcs():
+            for helper in sorted(DELEGATES):
+                for node in graph.sites.get((f.qual, helper), []):
+                    if f.qual == helper:
+                        continue
+                    par = f.mod.parents.get(node)
+                    n_del += 1
+                    key = (f.qual, helper)
+                    seen_pairs.add(key)
+                    ent = DELEGATE_CALLERS.get(key)
+                    if ent is None:
+                        ctx.ob(
+                            "C17.exec",
+                            f,
+                            par if isinstance(par, ast.Call) else node,
+                            False,
+                            "new caller of the importing helper {}: needs review (is the name explicit "
+                            "user input or taken from analysed source?)".format(helper),
+                        )
+                        continue
+                    cls, roots, reason = ent
+                    call = par if isinstance(par, ast.Call) and par.func is node else None
+                    got = param_roots(f, ast.Tuple(elts=list(call.args) + [k.value for k in call.keywords if k.arg not in ("extra_symbols", "none_when_no_spec")], ctx=ast.Load())) if call is not None else set()
+                    if call is not None:
+                        # re-run on the original nodes so that lambda scoping is visible
+                        got = set()
+                        for a in list(call.args) + [k.value for k in call.keywords if k.arg not in ("extra_symbols", "none_when_no_spec")]:
+                            got |= param_roots(f, a)
+                    shape_ok = call is not None and got <= roots and bool(got)
+                    if not shape_ok:
+                        ctx.ob(
+                            "C17.exec",
+                            f,
+                            par if isinstance(par, ast.Call) else node,
+                            False,
+                            "argument of {} now depends on {} (confirmed: {})".format(
+                                helper, sorted(got), sorted(roots)
+                            ),
+                        )
+                        continue
+                    if cls == "source":
+                        reach_from = [
+                            c for c in COMMANDS if f.qual in graph.reachable([c])
+                        ]
+                        ctx.ob(
+                            "C17.exec",
+                            f,
+                            call,
+                            False,
+                            "a module name taken from the analysed source reaches {} -> find_spec, which "
+                            "imports the parent package(s) of a dotted name ({}); reachable from {}".format(
+                                helper, reason, reach_from
+                            ),
+                        )
+                    else:
+                        ctx.ob("C17.exec", f, call, True, "{}: {}".format(cls, reason))
+        for key in DELEGATE_CALLERS:
+            ctx.need(key in seen_pairs, "who-may-call table entry vanished: {}".format(key))
+        ctx.count("delegate_call_sites", n_del)
+
+    ctx.section(_sec_who_may_call_delegates)
+
+    def _sec_c17_reach():
+        nonlocal arg, bad, e, f, key, ok, q
+        # ------------------------------------------------------------ C17.reach
+        allowed_for_pure = {
+            ("cdd.shared.docstring_parsers.__set_name_and_type_handle_doc_in_param", "builtins.eval"),
+        }
+        pure_entries = PARSERS + EMITTERS + [
+            "cdd.compound.doctrans.doctrans",
+            "cdd.shared.conformance.ground_truth",
+        ]
+        for q in pure_entries + ["cdd.compound.sync_properties.sync_properties"]:
+            r = graph.reachable([q])
+            bad = []
+            for e in exec_sites:
+                if e.func is None or e.func.qual not in r:
+                    continue
+                key = (e.func.qual, e.callee)
+                arg = e.call.args[0] if e.call.args else None
+                if e.sub == "import" and arg is not None and closed_constant(arg):
+                    continue
+                if key in allowed_for_pure:
+                    continue
+                if q.endswith("sync_properties") and key[0].endswith("sync_property"):
+                    continue
+                bad.append(e)
+            ok = not bad
+            f = index.funcs[q]
+            ctx.ob(
+                "C17.reach",
+                f,
+                "EXEC sinks reachable from " + f.short,
+                ok,
+                ""
+                if ok
+                else "entry point reaches {} via {}".format(
+                    [(b.func.qual, b.callee) for b in bad][:3],
+                    " -> ".join(graph.path(q, bad[0].func.qual) or []),
+                ),
+                line=f.node.lineno,
+            )
+
+    ctx.section(_sec_c17_reach)
+
+    def _sec_c17_write():
+        nonlocal bad, call, e, f, msg, ok, p, q, roots
+        # ------------------------------------------------------------ C17.write
+        for q in PARSERS + EMITTERS:
+            f = index.funcs[q]
+            ok = q not in wm.may
+            ctx.ob(
+                "C17.write",
+                f,
+                "write sinks reachable from " + f.short,
+                ok,
+                "" if ok else "a parser/emitter may write: {}".format(" -> ".join(wm.path(q))),
+                line=f.node.lineno,
+            )
+        cmd_reach = set()
+        for q in COMMANDS:
+            cmd_reach |= graph.reachable([q])
+        n_w = 0
+        for q in sorted(cmd_reach):
+            f = index.funcs.get(q)
+            if f is None or f.mod.is_test:
+                continue
+            sites = [(e.call, e.callee + ":" + e.sub) for e in wm.direct.get(q, ())]
+            sites += [(n, "wrapper " + w) for n, w, mode in wm.wrapper_write_sites.get(q, ()) if isinstance(n, ast.Call)]
+            # the wrappers themselves (open(filename, mode)) are checked at their call sites
+            for call, what in sites:
+                n_w += 1
+                p = _path_arg(index, wm, f, call, what)
+                if p is None:
+                    ctx.need(False, "cannot find the path argument of {}".format(short(call)))
+                roots = param_roots(f, p)
+                allowed = OUTPUT_PARAMS.get(q)
+                if allowed is None:
                     ctx.ob(
                         "C17.write",
                         f,
-                        e.call,
+                        call,
                         False,
-                        "file derived from input parameter {} opened with mode {}".format(
-                            sorted(bad), short(open_mode_arg(e.call), 20)
-                        ),
+                        "write sink in a function that is not a designated output writer "
+                        "(path depends on {})".format(sorted(roots)),
                     )
+                    continue
+                ok = bool(roots) and roots <= allowed
+                msg = ""
+                if not ok:
+                    msg = "written path depends on {} — only {} name the output file".format(
+                        sorted(roots), sorted(allowed)
+                    )
+                else:
+                    ex = exact_param(index, f, p)
+                    if ex is None or ex not in allowed:
+                        ok = False
+                        msg = (
+                            "the file written is `{}`, not exactly the named output ({}): a second file is "
+                            "created/modified".format(short(p, 60), sorted(allowed))
+                        )
+                ctx.ob("C17.write", f, call, ok, msg)
+        ctx.count("command_write_sites", n_w)
+        ctx.floor("command write sites", n_w, 8)
+        # input files are opened read-only: every open() whose path depends on an input parameter
+        for q in sorted(cmd_reach):
+            f = index.funcs.get(q)
+            if f is None or f.mod.is_test:
+                continue
+            for e in eff.by_func.get(q, ()):
+                if e.kind == "FSWRITE" and e.callee in OPEN_NAMES and e.call.args:
+                    roots = param_roots(f, e.call.args[0])
+                    bad = roots & INPUT_PARAMS
+                    if bad:
+                        ctx.ob(
+                            "C17.write",
+                            f,
+                            e.call,
+                            False,
+                            "file derived from input parameter {} opened with mode {}".format(
+                                sorted(bad), short(open_mode_arg(e.call), 20)
+                            ),
+                        )
+
+    ctx.section(_sec_c17_write)
+
 
 
 NORMALISERS = frozenset(
